@@ -1,1 +1,892 @@
-fn main(){}
+// Case-file executor on the implementation (dvb_gse_rust at /repo).
+// Reads a case file (see DESIGN.md appendix B / tools/gen_cases.py), executes every operation through the
+// public API under catch_unwind and prints one canonical observation line per operation.
+// The OCaml driver over the extracted Coq model prints the same lines for the same file.
+use dvb_gse_rust::crc::{CrcCalculator, DefaultCrc};
+use dvb_gse_rust::gse_decap::{
+    read_gse_header, DecapContext, DecapError, DecapMemoryError, DecapMetadata, DecapStatus, Decapsulator,
+    GetLabelorFragIdError, GseDecapMemory, LabelorFragId, SimpleGseMemory,
+};
+use dvb_gse_rust::gse_encap::{
+    encap_frag_preview, encap_preview, generate_gse_header, ContextFrag, EncapError, EncapMetadata, EncapStatus,
+    Encapsulator,
+};
+use dvb_gse_rust::header_extension::{
+    Extension, ExtensionData, MandatoryHeaderExt, MandatoryHeaderExtensionManager, NewExtensionError,
+};
+use dvb_gse_rust::label::{Label, LabelType};
+use dvb_gse_rust::utils::{
+    GseCompletePacket, GseEndFragPacket, GseFirstFragPacket, GseIntermediatePacket, Serialisable,
+};
+use std::fmt::Write as _;
+use std::io::{BufRead, Write};
+use std::panic::{catch_unwind, AssertUnwindSafe};
+
+// ---------- canonical text helpers (must match ocaml/driver.ml) ----------
+fn hex(b: &[u8]) -> String {
+    if b.is_empty() {
+        return "-".into();
+    }
+    let mut s = String::with_capacity(b.len() * 2);
+    for x in b {
+        write!(s, "{:02x}", x).unwrap();
+    }
+    s
+}
+fn unhex(s: &str) -> Vec<u8> {
+    if s == "-" {
+        return vec![];
+    }
+    (0..s.len() / 2).map(|i| u8::from_str_radix(&s[2 * i..2 * i + 2], 16).unwrap()).collect()
+}
+fn gen_bytes(len: usize, seed: u64) -> Vec<u8> {
+    let mut x = seed & 0x7FFF_FFFF;
+    let mut v = Vec::with_capacity(len);
+    for _ in 0..len {
+        x = (x * 1103515245 + 12345) & 0x7FFF_FFFF;
+        v.push(((x >> 16) & 0xFF) as u8);
+    }
+    v
+}
+fn bytes_tok(s: &str) -> Vec<u8> {
+    if let Some(r) = s.strip_prefix('g') {
+        let mut it = r.split('.');
+        let len: usize = it.next().unwrap().parse().unwrap();
+        let seed: u64 = it.next().unwrap().parse().unwrap();
+        gen_bytes(len, seed)
+    } else {
+        unhex(s)
+    }
+}
+fn fnv(b: &[u8]) -> String {
+    let mut h: u64 = 0xcbf29ce484222325;
+    for x in b {
+        h ^= *x as u64;
+        h = h.wrapping_mul(0x100000001b3);
+    }
+    format!("{:016x}", h)
+}
+fn label_tok(s: &str) -> Label {
+    match s {
+        "B" => Label::Broadcast,
+        "R" => Label::ReUse,
+        _ => {
+            let b = unhex(&s[2..]);
+            if s.starts_with("6:") {
+                Label::SixBytesLabel(b.try_into().unwrap())
+            } else {
+                Label::ThreeBytesLabel(b.try_into().unwrap())
+            }
+        }
+    }
+}
+fn label_str(l: &Label) -> String {
+    match l {
+        Label::Broadcast => "B".into(),
+        Label::ReUse => "R".into(),
+        Label::SixBytesLabel(b) => format!("6:{}", hex(b)),
+        Label::ThreeBytesLabel(b) => format!("3:{}", hex(b)),
+    }
+}
+fn optlabel_str(l: &Option<Label>) -> String {
+    match l {
+        None => "none".into(),
+        Some(l) => label_str(l),
+    }
+}
+fn ext_str(e: &Extension) -> String {
+    let (k, d): (&str, &[u8]) = match e.data() {
+        ExtensionData::Data2(d) => ("D2", d),
+        ExtensionData::Data4(d) => ("D4", d),
+        ExtensionData::Data6(d) => ("D6", d),
+        ExtensionData::Data8(d) => ("D8", d),
+        ExtensionData::NoData => ("DN", &[]),
+        ExtensionData::MandatoryData(d) => ("DM", d),
+    };
+    format!("{:04x}:{}:{}", e.id(), k, hex(d))
+}
+fn exts_str(es: &[Extension]) -> String {
+    if es.is_empty() {
+        return "-".into();
+    }
+    es.iter().map(ext_str).collect::<Vec<_>>().join(",")
+}
+// "id:hex,id:hex" -> Result<Vec<Extension>, ()>
+fn exts_tok(s: &str) -> Result<Vec<Extension>, NewExtensionError> {
+    if s == "-" {
+        return Ok(vec![]);
+    }
+    let mut v = vec![];
+    for part in s.split(',') {
+        let mut it = part.split(':');
+        let id = u16::from_str_radix(it.next().unwrap(), 16).unwrap();
+        let data = unhex(it.next().unwrap_or("-"));
+        v.push(Extension::new(id, &data)?);
+    }
+    Ok(v)
+}
+fn enc_err(e: &EncapError) -> &'static str {
+    match e {
+        EncapError::ErrorSizeBuffer => "SizeBuffer",
+        EncapError::ErrorPduLength => "PduLength",
+        EncapError::ErrorProtocolType => "ProtocolType",
+        EncapError::ErrorInvalidLabel => "InvalidLabel",
+        EncapError::ErrorNoExtensionFound => "NoExtensionFound",
+        EncapError::ErrorFinalMandatoryExtensionHeader => "FinalMandatoryExtensionHeader",
+    }
+}
+fn kind_str(k: &dyn std::fmt::Debug) -> &'static str {
+    match format!("{:?}", k).as_str() {
+        "CompletePkt" => "C",
+        "FirstFragPkt" => "F",
+        "IntermediateFragPkt" => "I",
+        "EndFragPkt" => "E",
+        _ => "?",
+    }
+}
+fn lt_str(t: &LabelType) -> &'static str {
+    match t {
+        LabelType::SixBytesLabel => "6",
+        LabelType::ThreeBytesLabel => "3",
+        LabelType::Broadcast => "B",
+        LabelType::ReUse => "R",
+    }
+}
+
+// table-driven manager: id -> Final(n) | NonFinal(n)
+#[derive(Clone)]
+struct TabMgr {
+    tab: Vec<(u16, bool, u8)>,
+    signal: bool,
+}
+impl MandatoryHeaderExtensionManager for TabMgr {
+    fn is_mandatory_header_id_known(&self, id: u16) -> MandatoryHeaderExt {
+        if self.signal && (id == 0x81 || id == 0x82) {
+            return MandatoryHeaderExt::Final(0);
+        }
+        for (i, f, n) in &self.tab {
+            if *i == id {
+                return if *f { MandatoryHeaderExt::Final(*n) } else { MandatoryHeaderExt::NonFinal(*n) };
+            }
+        }
+        MandatoryHeaderExt::Unknown
+    }
+}
+// "simple" | "signal" | "tab:0005=F2;0007=N4"  (signal uses the crate's own manager semantics through the
+// bundled SignalisationMandatoryExtensionHeaderManager: checked equal to TabMgr{signal} by the EXT family)
+fn mgr_tok(s: &str) -> TabMgr {
+    match s {
+        "simple" => TabMgr { tab: vec![], signal: false },
+        "signal" => TabMgr { tab: vec![], signal: true },
+        _ => {
+            let mut tab = vec![];
+            for part in s[4..].split(';') {
+                if part.is_empty() {
+                    continue;
+                }
+                let id = u16::from_str_radix(&part[..4], 16).unwrap();
+                let f = &part[5..6] == "F";
+                let n: u8 = part[6..].parse().unwrap();
+                tab.push((id, f, n));
+            }
+            TabMgr { tab, signal: false }
+        }
+    }
+}
+
+type Dec = Decapsulator<SimpleGseMemory, DefaultCrc, TabMgr>;
+
+struct World {
+    enc: Encapsulator<DefaultCrc>,
+    last_pkt: Vec<u8>,
+    last_pdu: Vec<u8>,
+    last_ctx: Option<ContextFrag>,
+    dec: Option<Dec>,
+    dec_cfg: (usize, usize),
+    nprov: u64,
+    owned: Vec<Box<[u8]>>,
+    held: Option<(DecapContext, Box<[u8]>)>,
+    history: Vec<String>,
+}
+
+fn enc_state_str(e: &Encapsulator<DefaultCrc>) -> String {
+    // derived Debug: Encapsulator { crc_calculator: DefaultCrc, re_use_activated: true, re_max_consecutive: 0,
+    //                re_current_consecutive: 0, last_label: Some(SixBytesLabel([1, 2, 3, 4, 5, 6])) }
+    let d = format!("{:?}", e);
+    let field = |name: &str| -> String {
+        let i = d.find(name).unwrap() + name.len() + 2;
+        let rest = &d[i..];
+        let mut depth = 0i32;
+        let mut end = rest.len();
+        for (k, c) in rest.char_indices() {
+            match c {
+                '(' | '[' | '{' => depth += 1,
+                ')' | ']' => depth -= 1,
+                '}' => {
+                    if depth == 0 {
+                        end = k;
+                        break;
+                    }
+                    depth -= 1
+                }
+                ',' => {
+                    if depth == 0 {
+                        end = k;
+                        break;
+                    }
+                }
+                _ => {}
+            }
+        }
+        rest[..end].trim().to_string()
+    };
+    let last = field("last_label");
+    let last = if last == "None" {
+        "none".to_string()
+    } else {
+        let inner = &last[5..last.len() - 1];
+        if inner == "Broadcast" {
+            "B".into()
+        } else if inner == "ReUse" {
+            "R".into()
+        } else {
+            let six = inner.starts_with("Six");
+            let a = inner.find('[').unwrap();
+            let b = inner.find(']').unwrap();
+            let bytes: Vec<u8> = inner[a + 1..b].split(',').map(|x| x.trim().parse().unwrap()).collect();
+            format!("{}:{}", if six { 6 } else { 3 }, hex(&bytes))
+        }
+    };
+    format!(
+        "re={} max={} cur={} last={}",
+        if field("re_use_activated") == "true" { 1 } else { 0 },
+        field("re_max_consecutive"),
+        field("re_current_consecutive"),
+        last
+    )
+}
+
+fn md_str(m: &DecapMetadata) -> String {
+    format!("ptype={} label={} exts={}", m.protocol_type(), label_str(&m.label()), exts_str(m.extensions()))
+}
+fn memerr_str(e: &DecapMemoryError) -> String {
+    match e {
+        DecapMemoryError::StorageOverflow(b) => format!("Overflow:{}", b.len()),
+        DecapMemoryError::StorageUnderflow => "Underflow".into(),
+        DecapMemoryError::UndefinedId => "UndefinedId".into(),
+        DecapMemoryError::BufferTooSmall(b) => format!("TooSmall:{}", b.len()),
+        DecapMemoryError::MemoryCorrupted => "Corrupted".into(),
+    }
+}
+fn decerr_str(e: &DecapError) -> String {
+    match e {
+        DecapError::ErrorSizeBuffer => "SizeBuffer".into(),
+        DecapError::ErrorTotalLength => "TotalLength".into(),
+        DecapError::ErrorGseLength => "GseLength".into(),
+        DecapError::ErrorSizePduBuffer => "SizePduBuffer".into(),
+        DecapError::ErrorProtocolType => "ProtocolType".into(),
+        DecapError::ErrorMemory(m) => format!("Memory:{}", memerr_str(m)),
+        DecapError::ErrorCrc => "Crc".into(),
+        DecapError::ErrorInvalidLabel => "InvalidLabel".into(),
+        DecapError::ErrorNoLabelSaved => "NoLabelSaved".into(),
+        DecapError::ErrorLabelBroadcastSaved => "LabelBroadcastSaved".into(),
+        DecapError::ErrorLabelReUseSaved => "LabelReUseSaved".into(),
+        DecapError::ErrorUnkownMandatoryHeader => "UnkownMandatoryHeader".into(),
+    }
+}
+fn ctx_str(c: &DecapContext) -> String {
+    format!(
+        "{},{},{},{},{},{},{}",
+        c.frag_id,
+        c.total_len,
+        c.pdu_len,
+        c.from_label_reuse as u8,
+        label_str(&c.label),
+        c.protocol_type,
+        exts_str(&c.extensions_header)
+    )
+}
+// ctx token: fid,total,pdulen,reuse,label,ptype  (no extensions)
+fn ctx_tok(s: &str) -> DecapContext {
+    let p: Vec<&str> = s.split(',').collect();
+    DecapContext::new(
+        label_tok(p[4]),
+        p[5].parse().unwrap(),
+        p[0].parse().unwrap(),
+        p[1].parse().unwrap(),
+        p[2].parse().unwrap(),
+        p[3] == "1",
+        vec![],
+    )
+}
+
+impl World {
+    fn new() -> World {
+        World {
+            enc: Encapsulator::new(DefaultCrc {}),
+            last_pkt: vec![],
+            last_pdu: vec![],
+            last_ctx: None,
+            dec: None,
+            dec_cfg: (0, 0),
+            nprov: 0,
+            owned: vec![],
+            held: None,
+            history: vec![],
+        }
+    }
+
+    fn enc_result(
+        &mut self,
+        r: std::thread::Result<Result<EncapStatus, EncapError>>,
+        before: &[u8],
+        after: &[u8],
+        pdu: &[u8],
+        with_state: bool,
+    ) -> String {
+        let st = if with_state { format!(" st={}", enc_state_str(&self.enc)) } else { String::new() };
+        match r {
+            Err(_) => "PANIC".into(),
+            Ok(Err(e)) => {
+                format!("err {} pkt=- tail={}{}", enc_err(&e), (before == after) as u8, st)
+            }
+            Ok(Ok(s)) => {
+                let (n, head) = match &s {
+                    EncapStatus::CompletedPkt(n) => (*n as usize, format!("ok C {}", n)),
+                    EncapStatus::FragmentedPkt(n, c) => {
+                        (*n as usize, format!("ok F {} {} {} {}", n, c.frag_id(), c.crc(), c.len_pdu_frag()))
+                    }
+                };
+                let k = n.min(after.len());
+                let tail = before.len() == after.len() && before[k..] == after[k..];
+                self.last_pkt = after[..k].to_vec();
+                self.last_pdu = pdu.to_vec();
+                self.last_ctx = match s {
+                    EncapStatus::FragmentedPkt(_, c) => Some(c),
+                    _ => None,
+                };
+                format!("{} pkt={} tail={}{}", head, hex(&after[..k]), tail as u8, st)
+            }
+        }
+    }
+
+    fn dec_result(&mut self, r: std::thread::Result<Result<(DecapStatus, usize), (DecapError, usize)>>) -> String {
+        match r {
+            Err(_) => "PANIC".into(),
+            Ok(Ok((DecapStatus::Padding, n))) => format!("ok padding consumed={}", n),
+            Ok(Ok((DecapStatus::FragmentedPkt(m), n))) => {
+                format!("ok fragmented pdulen={} {} consumed={}", m.pdu_len(), md_str(&m), n)
+            }
+            Ok(Ok((DecapStatus::CompletedPkt(b, m), n))) => {
+                let k = m.pdu_len().min(b.len());
+                let s = format!(
+                    "ok completed len={} pdulen={} data={} rest={} {} consumed={}",
+                    b.len(),
+                    m.pdu_len(),
+                    hex(&b[..k]),
+                    fnv(&b[k..]),
+                    md_str(&m),
+                    n
+                );
+                self.owned.push(b);
+                s
+            }
+            Ok(Err((e, n))) => {
+                let s = format!("err {} consumed={}", decerr_str(&e), n);
+                if let DecapError::ErrorMemory(DecapMemoryError::StorageOverflow(b))
+                | DecapError::ErrorMemory(DecapMemoryError::BufferTooSmall(b)) = e
+                {
+                    self.owned.push(b);
+                }
+                s
+            }
+        }
+    }
+
+    fn observe(&mut self) -> String {
+        // last label: replay the history on a fresh world, then probe with an empty complete re-use packet
+        let hist = self.history.clone();
+        let last = {
+            let mut w = World::new();
+            for l in &hist {
+                let _ = w.apply(l, false);
+            }
+            match w.dec.as_mut() {
+                None => "nodec".to_string(),
+                Some(d) => {
+                    let probe = vec![0u8; w.dec_cfg.1.max(1)].into_boxed_slice();
+                    if d.provision_storage(probe).is_err() {
+                        // free list full or too small: there is a free buffer unless cap is reached with ... pop nothing
+                    }
+                    match catch_unwind(AssertUnwindSafe(|| d.decap(&[0xF0, 0x02, 0x08, 0x00]))) {
+                        Err(_) => "PANIC".into(),
+                        Ok(Ok((DecapStatus::CompletedPkt(_, m), _))) => label_str(&m.label()),
+                        Ok(Err((DecapError::ErrorNoLabelSaved, _))) => "none".into(),
+                        Ok(Err((DecapError::ErrorLabelBroadcastSaved, _))) => "B!".into(),
+                        Ok(Err((DecapError::ErrorLabelReUseSaved, _))) => "R!".into(),
+                        Ok(x) => format!("?{:?}", x.map(|(s, n)| (s.to_str(), n)).map_err(|(e, n)| (decerr_str(&e), n))),
+                    }
+                }
+            }
+        };
+        let d = match self.dec.as_mut() {
+            None => return "nodec".into(),
+            Some(d) => d,
+        };
+        let mut m = d.memory.clone();
+        let mut free = vec![];
+        while let Ok(b) = m.new_pdu() {
+            free.push(format!("{}:{}", b.len(), fnv(&b)));
+        }
+        let mut slots = vec![];
+        for f in 0..=255u8 {
+            if let Ok((c, b)) = m.take_frag(f) {
+                slots.push(format!("{};{}:{}", ctx_str(&c), b.len(), fnv(&b)));
+            }
+        }
+        format!("last={} free=[{}] slots=[{}]", last, free.join(" "), slots.join(" "))
+    }
+
+    fn apply(&mut self, line: &str, record: bool) -> String {
+        let t: Vec<&str> = line.split(' ').collect();
+        let op = t[0];
+        if record && op != "DOBS" {
+            self.history.push(line.to_string());
+        }
+        match op {
+            "ENEW" => {
+                self.enc = Encapsulator::new(DefaultCrc {});
+                format!("enc {}", enc_state_str(&self.enc))
+            }
+            "ERESET" => {
+                self.enc.reset_last_label();
+                format!("enc {}", enc_state_str(&self.enc))
+            }
+            "EDIS" => {
+                self.enc.disable_re_use_label();
+                format!("enc {}", enc_state_str(&self.enc))
+            }
+            "EEN" => {
+                self.enc.enable_re_use_label();
+                format!("enc {}", enc_state_str(&self.enc))
+            }
+            "EENMAX" => {
+                self.enc.enable_re_use_label_with_max_consecutive(t[1].parse().unwrap());
+                format!("enc {}", enc_state_str(&self.enc))
+            }
+            "ENCAP" | "EEXT" => {
+                let pdu = bytes_tok(t[1]);
+                let fid: u8 = t[2].parse().unwrap();
+                let pt: u16 = t[3].parse().unwrap();
+                let lab = label_tok(t[4]);
+                let before = gen_bytes(t[5].parse().unwrap(), t[6].parse().unwrap());
+                let mut buf = before.clone();
+                let md = EncapMetadata::new(pt, lab);
+                if op == "ENCAP" {
+                    let r = catch_unwind(AssertUnwindSafe(|| self.enc.encap(&pdu, fid, md, &mut buf)));
+                    self.enc_result(r, &before, &buf, &pdu, true)
+                } else {
+                    let exts = match catch_unwind(|| exts_tok(t[7])) {
+                        Err(_) => return "PANIC extnew".into(),
+                        Ok(Err(_)) => return "err extnew".into(),
+                        Ok(Ok(e)) => e,
+                    };
+                    let r = catch_unwind(AssertUnwindSafe(|| self.enc.encap_ext(&pdu, fid, md, &mut buf, exts)));
+                    self.enc_result(r, &before, &buf, &pdu, true)
+                }
+            }
+            "EFRAG" => {
+                let pdu = bytes_tok(t[1]);
+                let ctx = ContextFrag::new(t[2].parse().unwrap(), t[3].parse().unwrap(), t[4].parse().unwrap());
+                let before = gen_bytes(t[5].parse().unwrap(), t[6].parse().unwrap());
+                let mut buf = before.clone();
+                let r = catch_unwind(AssertUnwindSafe(|| self.enc.encap_frag(&pdu, &ctx, &mut buf)));
+                self.enc_result(r, &before, &buf, &pdu, true)
+            }
+            "EFRAGC" => {
+                let ctx = match self.last_ctx {
+                    None => return "skip".into(),
+                    Some(c) => c,
+                };
+                let pdu = self.last_pdu.clone();
+                let before = gen_bytes(t[1].parse().unwrap(), t[2].parse().unwrap());
+                let mut buf = before.clone();
+                let r = catch_unwind(AssertUnwindSafe(|| self.enc.encap_frag(&pdu, &ctx, &mut buf)));
+                // a rejected buffer keeps the context for the next attempt
+                let keep = self.last_ctx;
+                let keep_pkt = self.last_pkt.clone();
+                let s = self.enc_result(r, &before, &buf, &pdu, true);
+                if s.starts_with("err") || s.starts_with("PANIC") {
+                    self.last_ctx = keep;
+                    self.last_pkt = keep_pkt;
+                }
+                s
+            }
+            "PENCAP" => {
+                let pdu = bytes_tok(t[1]);
+                let md = EncapMetadata::new(t[2].parse().unwrap(), label_tok(t[3]));
+                let buf = vec![0u8; t[4].parse().unwrap()];
+                match catch_unwind(|| encap_preview(&pdu, md, &buf)) {
+                    Err(_) => "PANIC".into(),
+                    Ok(Err(e)) => format!("err {}", enc_err(&e)),
+                    Ok(Ok(p)) => format!("ok {} {} {}", kind_str(&p.pkt_type()), p.pdu_len(), p.pkt_len()),
+                }
+            }
+            "PFRAG" => {
+                let pdu = bytes_tok(t[1]);
+                let ctx = ContextFrag::new(t[2].parse().unwrap(), t[3].parse().unwrap(), t[4].parse().unwrap());
+                let buf = vec![0u8; t[5].parse().unwrap()];
+                match catch_unwind(|| encap_frag_preview(&pdu, &ctx, &buf)) {
+                    Err(_) => "PANIC".into(),
+                    Ok(Err(e)) => format!("err {}", enc_err(&e)),
+                    Ok(Ok(p)) => format!("ok {} {} {}", kind_str(&p.pkt_type()), p.pdu_len(), p.pkt_len()),
+                }
+            }
+            "DNEW" => {
+                let slots: usize = t[1].parse().unwrap();
+                let maxpdu: usize = t[2].parse().unwrap();
+                let mem = SimpleGseMemory::new(slots, maxpdu, 0, 0);
+                self.dec = Some(Decapsulator::new(mem, DefaultCrc {}, mgr_tok(t[3])));
+                self.dec_cfg = (slots, maxpdu);
+                self.owned.clear();
+                self.held = None;
+                self.nprov = 0;
+                "ok".into()
+            }
+            "DPROV" => {
+                let size: usize = t[1].parse().unwrap();
+                let fill = ((self.nprov * 37 + 11) & 0xFF) as u8;
+                self.nprov += 1;
+                let b = vec![fill; size].into_boxed_slice();
+                let d = self.dec.as_mut().unwrap();
+                match d.provision_storage(b) {
+                    Ok(()) => "ok".into(),
+                    Err(e) => {
+                        let s = format!("err {}", memerr_str(&e));
+                        if let DecapMemoryError::StorageOverflow(b) | DecapMemoryError::BufferTooSmall(b) = e {
+                            self.owned.push(b);
+                        }
+                        s
+                    }
+                }
+            }
+            "DPROVBACK" => {
+                let b = match self.owned.pop() {
+                    None => return "none".into(),
+                    Some(b) => b,
+                };
+                let d = self.dec.as_mut().unwrap();
+                match d.provision_storage(b) {
+                    Ok(()) => "ok".into(),
+                    Err(e) => {
+                        let s = format!("err {}", memerr_str(&e));
+                        if let DecapMemoryError::StorageOverflow(b) | DecapMemoryError::BufferTooSmall(b) = e {
+                            self.owned.push(b);
+                        }
+                        s
+                    }
+                }
+            }
+            "DNEWPDU" => {
+                let d = self.dec.as_mut().unwrap();
+                match d.new_pdu() {
+                    Ok(b) => {
+                        let s = format!("ok {}:{}", b.len(), fnv(&b));
+                        self.owned.push(b);
+                        s
+                    }
+                    Err(e) => format!("err {}", memerr_str(&e)),
+                }
+            }
+            "DRESET" => {
+                self.dec.as_mut().unwrap().reset_last_label();
+                "ok".into()
+            }
+            "DECAP" | "DECAPL" => {
+                let bytes = if op == "DECAP" {
+                    bytes_tok(t[1])
+                } else {
+                    let mut b = self.last_pkt.clone();
+                    b.extend_from_slice(&bytes_tok(t[1]));
+                    b
+                };
+                let d = self.dec.as_mut().unwrap();
+                let r = catch_unwind(AssertUnwindSafe(|| d.decap(&bytes)));
+                self.dec_result(r)
+            }
+            "PEEK" | "PEEKL" => {
+                let bytes = if op == "PEEK" {
+                    bytes_tok(t[1])
+                } else {
+                    let mut b = self.last_pkt.clone();
+                    b.extend_from_slice(&bytes_tok(t[1]));
+                    b
+                };
+                let d = self.dec.as_ref().unwrap();
+                match catch_unwind(AssertUnwindSafe(|| d.get_label_or_frag_id(&bytes))) {
+                    Err(_) => "PANIC".into(),
+                    Ok(Ok(LabelorFragId::Lbl(l))) => format!("ok label {}", label_str(&l)),
+                    Ok(Ok(LabelorFragId::FragId(f))) => format!("ok fragid {}", f),
+                    Ok(Err(e)) => format!(
+                        "err {}",
+                        match e {
+                            GetLabelorFragIdError::ErrLabelReuse => "LabelReuse",
+                            GetLabelorFragIdError::ErrSizeBuffer => "SizeBuffer",
+                            GetLabelorFragIdError::ErrHeaderRead => "HeaderRead",
+                            GetLabelorFragIdError::ErrorUnkownMandatoryHeader => "UnkownMandatoryHeader",
+                        }
+                    ),
+                }
+            }
+            "DOBS" => self.observe(),
+            "MNEWFRAG" => {
+                let c = ctx_tok(t[1]);
+                let d = self.dec.as_mut().unwrap();
+                match catch_unwind(AssertUnwindSafe(|| d.memory.new_frag(c))) {
+                    Err(_) => "PANIC".into(),
+                    Ok(Ok((c, b))) => {
+                        let s = format!("ok {};{}:{}", ctx_str(&c), b.len(), fnv(&b));
+                        if let Some((_, old)) = self.held.take() {
+                            self.owned.push(old);
+                        }
+                        self.held = Some((c, b));
+                        s
+                    }
+                    Ok(Err(e)) => format!("err {}", memerr_str(&e)),
+                }
+            }
+            "MTAKE" => {
+                let d = self.dec.as_mut().unwrap();
+                match catch_unwind(AssertUnwindSafe(|| d.memory.take_frag(t[1].parse().unwrap()))) {
+                    Err(_) => "PANIC".into(),
+                    Ok(Ok((c, b))) => {
+                        let s = format!("ok {};{}:{}", ctx_str(&c), b.len(), fnv(&b));
+                        if let Some((_, old)) = self.held.take() {
+                            self.owned.push(old);
+                        }
+                        self.held = Some((c, b));
+                        s
+                    }
+                    Ok(Err(e)) => format!("err {}", memerr_str(&e)),
+                }
+            }
+            "MSAVE" | "MSAVEC" => {
+                let (c, b) = match self.held.take() {
+                    None => return "none".into(),
+                    Some(x) => x,
+                };
+                let c = if op == "MSAVEC" { ctx_tok(t[1]) } else { c };
+                let d = self.dec.as_mut().unwrap();
+                match catch_unwind(AssertUnwindSafe(|| d.memory.save_frag((c, b)))) {
+                    Err(_) => "PANIC".into(),
+                    Ok(Ok(())) => "ok".into(),
+                    Ok(Err(e)) => format!("err {}", memerr_str(&e)),
+                }
+            }
+            "HGEN" => {
+                let k = match t[1] {
+                    "C" => 0xC000u16,
+                    "F" => 0x8000,
+                    "E" => 0x4000,
+                    _ => 0x1000, // intermediate: any non-padding intermediate header
+                };
+                let (_, pk, _) = read_gse_header(k).unwrap();
+                let lt = match t[2] {
+                    "6" => LabelType::SixBytesLabel,
+                    "3" => LabelType::ThreeBytesLabel,
+                    "B" => LabelType::Broadcast,
+                    _ => LabelType::ReUse,
+                };
+                match catch_unwind(|| generate_gse_header(&pk, &lt, t[3].parse().unwrap())) {
+                    Err(_) => "PANIC".into(),
+                    Ok(w) => format!("{}", w),
+                }
+            }
+            "HREAD" => hread(t[1].parse().unwrap()),
+            "HREADR" => {
+                let a: u32 = t[1].parse().unwrap();
+                let b: u32 = t[2].parse().unwrap();
+                let mut all = String::new();
+                for w in a..b {
+                    all.push_str(&hread(w as u16));
+                    all.push('\n');
+                }
+                fnv(all.as_bytes())
+            }
+            "CRC" => {
+                let pdu = bytes_tok(t[1]);
+                let lab = bytes_tok(t[4]);
+                match catch_unwind(|| DefaultCrc {}.calculate_crc32(&pdu, t[2].parse().unwrap(), t[3].parse().unwrap(), &lab)) {
+                    Err(_) => "PANIC".into(),
+                    Ok(v) => format!("{}", v),
+                }
+            }
+            "XNEW" => {
+                let id = u16::from_str_radix(t[1], 16).unwrap();
+                let data = bytes_tok(t[2]);
+                match catch_unwind(|| Extension::new(id, &data)) {
+                    Err(_) => "PANIC".into(),
+                    Ok(Ok(e)) => format!("ok {} len={}", ext_str(&e), e.len()),
+                    Ok(Err(NewExtensionError::IdAndVecSizeNotMatchingError)) => "err IdAndVecSizeNotMatching".into(),
+                    Ok(Err(NewExtensionError::IncorrectExtensionId)) => "err IncorrectExtensionId".into(),
+                }
+            }
+            "XMGR" => {
+                // bundled managers: simple | signal
+                use dvb_gse_rust::header_extension::{
+                    SignalisationMandatoryExtensionHeaderManager, SimpleMandatoryExtensionHeaderManager,
+                };
+                let id = u16::from_str_radix(t[2], 16).unwrap();
+                let r = if t[1] == "signal" {
+                    SignalisationMandatoryExtensionHeaderManager {}.is_mandatory_header_id_known(id)
+                } else {
+                    SimpleMandatoryExtensionHeaderManager {}.is_mandatory_header_id_known(id)
+                };
+                match r {
+                    MandatoryHeaderExt::Final(n) => format!("final {}", n),
+                    MandatoryHeaderExt::NonFinal(n) => format!("nonfinal {}", n),
+                    MandatoryHeaderExt::Unknown => "unknown".into(),
+                }
+            }
+            "UGEN" => {
+                // UGEN C gse_len ptype label pdu buflen bufseed | UGEN F gse_len fid total ptype label pdu buflen bufseed
+                // UGEN I gse_len fid pdu buflen bufseed | UGEN E gse_len fid pdu crc buflen bufseed
+                let n = t.len();
+                let mut buf = gen_bytes(t[n - 2].parse().unwrap(), t[n - 1].parse().unwrap());
+                let g: u16 = t[2].parse().unwrap();
+                let r = catch_unwind(AssertUnwindSafe(|| match t[1] {
+                    "C" => {
+                        let pdu = bytes_tok(t[5]);
+                        GseCompletePacket::new(g, t[3].parse().unwrap(), label_tok(t[4]), &pdu).generate(&mut buf)
+                    }
+                    "F" => {
+                        let pdu = bytes_tok(t[7]);
+                        GseFirstFragPacket::new(g, t[3].parse().unwrap(), t[4].parse().unwrap(), t[5].parse().unwrap(), label_tok(t[6]), &pdu)
+                            .generate(&mut buf)
+                    }
+                    "I" => {
+                        let pdu = bytes_tok(t[4]);
+                        GseIntermediatePacket::new(g, t[3].parse().unwrap(), &pdu).generate(&mut buf)
+                    }
+                    _ => {
+                        let pdu = bytes_tok(t[4]);
+                        GseEndFragPacket::new(g, t[3].parse().unwrap(), &pdu, t[5].parse().unwrap()).generate(&mut buf)
+                    }
+                }));
+                match r {
+                    Err(_) => "PANIC".into(),
+                    Ok(()) => format!("ok {}", hex(&buf)),
+                }
+            }
+            "UPARSE" => {
+                let bytes = bytes_tok(t[2]);
+                let r = catch_unwind(|| match t[1] {
+                    "C" => GseCompletePacket::parse(&bytes).map(|p| {
+                        let d = format!("{:?}", p);
+                        d
+                    }),
+                    "F" => GseFirstFragPacket::parse(&bytes).map(|p| format!("{:?}", p)),
+                    "I" => GseIntermediatePacket::parse(&bytes).map(|p| format!("{:?}", p)),
+                    _ => GseEndFragPacket::parse(&bytes).map(|p| format!("{:?}", p)),
+                });
+                match r {
+                    Err(_) => "PANIC".into(),
+                    Ok(Err(_)) => "err".into(),
+                    Ok(Ok(d)) => format!("ok {}", canon_debug(&d)),
+                }
+            }
+            _ => format!("?op {}", op),
+        }
+    }
+}
+
+// Debug of the utils structs -> "gse_len=.. frag_id=.. total_length=.. protocol_type=.. label=.. pdu=hex crc=.."
+fn canon_debug(d: &str) -> String {
+    // e.g. GseFirstFragPacket { gse_len: 10, frag_id: 1, total_length: 30, protocol_type: 2048, label: SixBytesLabel([..]), pdu: [1, 2], }
+    let mut out = vec![];
+    let body = &d[d.find('{').unwrap() + 1..d.rfind('}').unwrap()];
+    // split on top-level commas
+    let mut depth = 0;
+    let mut cur = String::new();
+    let mut parts = vec![];
+    for c in body.chars() {
+        match c {
+            '[' | '(' => {
+                depth += 1;
+                cur.push(c)
+            }
+            ']' | ')' => {
+                depth -= 1;
+                cur.push(c)
+            }
+            ',' if depth == 0 => {
+                parts.push(cur.trim().to_string());
+                cur.clear()
+            }
+            _ => cur.push(c),
+        }
+    }
+    if !cur.trim().is_empty() {
+        parts.push(cur.trim().to_string());
+    }
+    for p in parts {
+        let i = p.find(':').unwrap();
+        let (k, v) = (p[..i].trim(), p[i + 1..].trim());
+        let v = if k == "pdu" {
+            let inner = &v[1..v.len() - 1];
+            let bytes: Vec<u8> = if inner.trim().is_empty() { vec![] } else { inner.split(',').map(|x| x.trim().parse().unwrap()).collect() };
+            hex(&bytes)
+        } else if k == "label" {
+            if v == "Broadcast" {
+                "B".to_string()
+            } else if v == "ReUse" {
+                "R".to_string()
+            } else {
+                let six = v.starts_with("Six");
+                let a = v.find('[').unwrap();
+                let b = v.find(']').unwrap();
+                let bytes: Vec<u8> = v[a + 1..b].split(',').map(|x| x.trim().parse().unwrap()).collect();
+                format!("{}:{}", if six { 6 } else { 3 }, hex(&bytes))
+            }
+        } else {
+            v.to_string()
+        };
+        out.push(format!("{}={}", k, v));
+    }
+    out.join(" ")
+}
+
+fn hread(w: u16) -> String {
+    match catch_unwind(|| read_gse_header(w)) {
+        Err(_) => "PANIC".into(),
+        Ok(None) => "none".into(),
+        Ok(Some((len, k, t))) => format!("{} {} {}", len, kind_str(&k), lt_str(&t)),
+    }
+}
+
+fn main() {
+    std::panic::set_hook(Box::new(|_| {}));
+    let args: Vec<String> = std::env::args().collect();
+    let input: Box<dyn BufRead> = if args.len() > 1 {
+        Box::new(std::io::BufReader::new(std::fs::File::open(&args[1]).expect("case file")))
+    } else {
+        Box::new(std::io::BufReader::new(std::io::stdin()))
+    };
+    let stdout = std::io::stdout();
+    let mut out = std::io::BufWriter::new(stdout.lock());
+    let mut w = World::new();
+    for line in input.lines() {
+        let line = line.unwrap();
+        let line = line.trim_end();
+        if line.is_empty() || line.starts_with('#') {
+            continue;
+        }
+        if line.starts_with("CASE") {
+            w = World::new();
+            writeln!(out, "{}", line).unwrap();
+            continue;
+        }
+        let r = w.apply(line, true);
+        writeln!(out, "{}", r).unwrap();
+    }
+}
